@@ -97,10 +97,12 @@ def run_lemmas(ctx, lemmas, procs=16):
                                 break
                     else:
                         prefs = e2run.probe_prefixes(prog, l.entry, o, l.split_depth, ls[0].intr)
-                    for pref, exact in prefs:
+                    for ji, (pref, exact) in enumerate(prefs):
                         o2 = dict(o)
                         o2["choice_prefix"] = list(pref)
                         o2["choice_exact"] = exact
+                        if ji >= 4:
+                            o2["witnesses"] = 0      # one natively validated path per lemma is enough
                         jobs.append((l.entry, o2))
                         owner.append(l)
                 else:
